@@ -166,6 +166,14 @@ type selG struct {
 
 func (w *selWorld) push(form string) {
 	switch form {
+	case "tv":
+		w.cb.Typ(w.named["R"])
+		return
+	case "tp":
+		w.cb.Typ(types.NewPointer(w.named["R"]))
+		return
+	}
+	switch form {
 	case "v":
 		w.cb.Val(w.fr).Call(0)
 	case "a":
@@ -279,6 +287,52 @@ func runC08(tier, replay string) {
 				want := w.objectOf(c, s)
 				if tk != s.K || (obj != nil && obj != want) {
 					run.Infra(fmt.Errorf("Select.tla disagrees with types.LookupFieldOrMethod (specification defect): %s.%s on %s: S=%s T=%s; %s", "R", sel, form, s.K, tk, selDescribe(c)))
+				}
+				// ---- method expressions (R).sel and (*R).sel: legal iff sel is in the method set of the type
+				if form != "a" {
+					mform := map[string]string{"v": "tv", "p": "tp"}[form]
+					ms := types.NewMethodSet(T)
+					inSet := ms.Lookup(w.pkg.Types, sel) != nil
+					if inSet != (s.K == "method") && s.K != "ambiguous" {
+						run.Infra(fmt.Errorf("Select.tla disagrees with go/types method sets (specification defect): (%s).%s S=%s T in-set=%v; %s", T, sel, s.K, inSet, selDescribe(c)))
+					}
+					g := w.member(mform, sel, false)
+					expK := "rejected"
+					if s.K == "method" {
+						expK = "method"
+					}
+					mu.Lock()
+					lookups++
+					mu.Unlock()
+					run.Eval(fmt.Sprintf("mexpr/%s/%s/%v", s.K, mform, s.Ind) + fmt.Sprint(len(s.Path)))
+					bad := ""
+					if g.kind != expK {
+						bad = fmt.Sprintf("MethodExpr/%s: Go=%s builder=%s", mform, s.K, g.kind)
+					} else if g.kind == "method" {
+						sig := want.Type().(*types.Signature)
+						ps := []*types.Var{types.NewParam(token.NoPos, nil, "", T)}
+						wt := types.NewSignatureType(nil, nil, nil, types.NewTuple(ps...), sig.Results(), false)
+						if !types.Identical(g.typ, wt) {
+							gotRecv := "no-receiver-parameter"
+							if gs, ok := g.typ.(*types.Signature); ok && gs.Params().Len() > 0 {
+								switch pt := gs.Params().At(0).Type(); {
+								case types.Identical(pt, w.named["R"]):
+									gotRecv = "R"
+								case types.Identical(pt, types.NewPointer(w.named["R"])):
+									gotRecv = "*R"
+								default:
+									gotRecv = "another-type"
+								}
+							}
+							bad = fmt.Sprintf("MethodExpr/%s: Go=method(receiver=%s,through-pointer=%v,depth=%d) builder-first-parameter=%s", mform, c.G[s.Owner].Meth, s.Ind, len(s.Path), gotRecv)
+						} else if g.obj != want {
+							bad = fmt.Sprintf("MethodExpr/%s: Go=method builder=method-but-wrong-object", mform)
+						}
+					}
+					if bad != "" {
+						run.Fail(bad, fmt.Sprintf("method expression (%s).%s: Go (Select.tla = go/types) says %s%s, the builder says %s type %v %s; graph: %s", T, sel, s.K, ownerStr(s), g.kind, g.typ, g.msg, selDescribe(c)),
+							map[string]any{"case": c, "sel": sel, "form": mform})
+					}
 				}
 				// ---- G
 				for _, ref := range []bool{false, true} {
